@@ -77,10 +77,29 @@ def value_under(ret, env):
     if isinstance(ret, Int):
         return bool(ret.v)
     if isinstance(ret, tuple) and ret and ret[0] == 'bool':
-        key, neg = canon(ret[1])
-        if key in env:
-            return env[key] != neg
+        return term_under(ret[1], env)
     return None
+
+
+def term_under(term, env):
+    """Truth value of a boolean term: a predicate, its negation, or the (in)equality of two terms"""
+    x, neg = strip_not(term)
+    if isinstance(x, tuple) and len(x) == 3 and x[0] in ('beq', 'bne'):
+        a, b = term_under(x[1], env), term_under(x[2], env)
+        if a is None or b is None:
+            return None
+        return ((a == b) == (x[0] == 'beq')) != neg
+    key, neg2 = canon(term)
+    if key in env:
+        return env[key] != neg2
+    return None
+
+
+def term_keys(term):
+    x, _neg = strip_not(term)
+    if isinstance(x, tuple) and len(x) == 3 and x[0] in ('beq', 'bne'):
+        return term_keys(x[1]) + term_keys(x[2])
+    return [canon(term)[0]]
 
 
 def predicates(results):
@@ -91,9 +110,9 @@ def predicates(results):
             if key not in keys:
                 keys.append(key)
         if isinstance(ret, tuple) and ret and ret[0] == 'bool':
-            key, _n = canon(ret[1])
-            if key not in keys:
-                keys.append(key)
+            for key in term_keys(ret[1]):
+                if key not in keys:
+                    keys.append(key)
     return keys
 
 
